@@ -2,10 +2,12 @@ SPECIFICATION Spec
 CONSTANTS
   Addr = {"S", "T"}
   Ident = {"X", "Y"}
-  MaxLinks = 4
+  MaxLinks = 3
   BugNoLostOnUsurp = FALSE
+  BugNoSelfHeal = FALSE
 INVARIANT ReportedAreOpen
 INVARIANT CurOpen
 INVARIANT NewerSurvives
+INVARIANT NewerReported
 PROPERTY EventuallyQuiescent
 CHECK_DEADLOCK FALSE
